@@ -268,6 +268,13 @@ def check_generated(case, r):
                        f"exported text:\n{out}", show(s1) if s1 is not None else show(a1),
                        show(s2) if s2 is not None else show(a2), tags=case["tags"])
                 return
+        if not (sched.choices and any(sched.choices)):
+            again = guard(export, D)
+            if isinstance(again, Raised) or sexp.read(again) != sexp.read(out):
+                r.outcome("export-after-use-differs")
+                r.fail("export-after-use", f"exporting the same Domain object again after it was grounded / applied gives a "
+                       f"different text:\n{out}\n---\n{again}", out, str(again)[:500], tags=case["tags"])
+                return
         r.outcome("agree")
     try:
         r.nontrivial = sexp.read(out) != sexp.read(pg.text)
